@@ -34,6 +34,13 @@ CHECKS["C13"] = dict(
     note="Trusted: Coq kernel; hand models in Arith.v of the translator (tied by correspondence), of C++ expression evaluation (validated against g++ in every run) and of Python's operators on declared types (validated against the interpreter); the printer's full parenthesisation; optables.py; floating-point operations are abstract (both sides use the same ones; float arithmetic = binary64 result rounded once). Side conditions: operands carry their declared types, ints fit 32 bits, divisor non-zero, % on non-negative ints.",
     technique="Coq proof over an abstract floating type (case analysis per operator and operand types, induction over expressions and folds) + regenerated tables + model/implementation correspondence + g++/Python differential oracle",
 )
+CHECKS["C11"] = dict(
+    category="proof",
+    text="Coq proves, for every list of identifier names, every argument text and every line, that the one-pass substitution of cpp_ast.replace_whole_words (Python re.sub with an ordered alternation between word boundaries and a function replacement, modelled incl. the empty-match rule) equals the property's specification: split the line into maximal word / non-word runs, map the runs that are formal names through the argument map simultaneously, concatenate (subst_is_simultaneous, C11_tokens_are_maximal_runs, C11_tokenwise, C11_other_text_unaltered); that a call site accepted by build_CPPCodeValue binds every parameter and the method object, puts the substituted lines in their own block ending in `result_var = result;`, declares the result variable with the declared value/collection type in the enclosing scope and adds the include files (C11_call_site); that wrong arity or call style is rejected with ValueError and nothing else is (C11_rejects, C11_accepts); freshness of the result variable per function (C11_result_var_fresh_partial) and its refutation across functions whose name ends in a digit (C11_result_var_fresh_refuted, known finding); and that the former per-name loop with the argument text as re template violates the property (C11_sequential_refuted, C11_template_refuted). Tied to the code by correspondence of the extracted model with Python re, with build_CPPCodeValue + process_ast_node run on the real generated_code, with cpp_ast_finder, and by end-to-end traces through the three executors (metadata functions, DeltaR, getAttributeFloat/VectorFloat; nested and repeated calls); an independent tokenise-and-map oracle on the emitted blocks supplies the failing query.",
+    design_ref="5.11",
+    note="Trusted: Coq kernel; hand model WordSubst.v (re.sub scan for the two pattern shapes, re replacement templates, cpp_ast.py, unique_name, arbitrary_statement, set_var, block.emit); Python's re itself; ASCII word characters; extraction, OCaml driver, S-expression codec; the stub visitor of the function-level correspondence (argument text is an arbitrary string in the theorems); parse_type/terminal rendering (C10). cpp_ast_finder is modelled and differentially tested, not the subject of a theorem. Correspondence and traces are tests bounded by their generators.",
+    technique="Coq proof (strong induction over the line by leading runs; refinement of a regex scan to a tokeniser) + model/implementation correspondence + end-to-end traces",
+)
 NOT_YET = {}
 
 def main():
